@@ -82,6 +82,14 @@ def check_request(acc, method, path, params, headers, body, upper=True):
         acc.fail(sig, {"kind": "request", "raw": raw.hex()}, js(exp), got if isinstance(got, str) else type(got).__name__)
         return
     g = norm_req(got)
+    # the caller owns what it got back: whatever it does to these maps must not show up in any later parse
+    try:
+        got.params[b"__poison__"] = b"p"
+        got.headers[b"__poison__"] = b"h"
+        for k in list(got.params)[:1]:
+            got.params[k] = b"overwritten"
+    except Exception:
+        pass
     acc.case(raw, nontrivial=nt, outcome=(len(g["params"]), len(g["headers"]), len(g["body"])))
     if g != exp:
         diff = [k for k in exp if exp[k] != g[k]]
@@ -162,6 +170,10 @@ def chunk_resp(chunk, acc):
                                 acc.fail("C16/response/exception", {"kind": "response", "raw": raw.hex()}, js(exp), got if isinstance(got, str) else type(got).__name__)
                                 continue
                             g = {"status": got.status, "reason": bytes(got.reason), "headers": {bytes(k): bytes(v) for k, v in got.headers.items()}, "body": bytes(got.body)}
+                            try:
+                                got.headers[b"__poison__"] = b"h"
+                            except Exception:
+                                pass
                             acc.case(raw, nontrivial=True, outcome=(g["status"], len(g["headers"]), len(g["body"])))
                             if g != exp:
                                 diff = [k for k in exp if exp[k] != g[k]]
